@@ -221,7 +221,7 @@ func (r *Ref) Step(op Op, obs Obs) []Finding {
 			break
 		}
 		b := r.Blocks[len(r.Blocks)-1]
-		r.Blocks = r.Blocks[:len(r.Blocks)-1:len(r.Blocks)-1]
+		r.Blocks = r.Blocks[: len(r.Blocks)-1 : len(r.Blocks)-1]
 		for _, t := range b.Txs {
 			h := u.HID[t]
 			delete(r.Exec, h)
